@@ -283,3 +283,97 @@ Proof.
   - intros c Hc. apply (svd_solve_lsq eps m n p U s V b HU HV HVr Hs c k Hc Hk).
   - exact Hy.
 Qed.
+
+(* ====================================================================== *)
+(* PART B — the tail of svd_mut: shell sort + sign normalisation           *)
+(* ====================================================================== *)
+
+(* st' is st with columns jointly permuted by sigma and multiplied by signs e j in {1,-1} *)
+Definition col_rel (m n : nat) (st st' : @svd_st R) (sigma : nat -> nat) (e : nat -> R) : Prop :=
+  (forall j, (j < n)%nat -> (sigma j < n)%nat) /\
+  (forall a b, (a < n)%nat -> (b < n)%nat -> sigma a = sigma b -> a = b) /\
+  (forall j, (j < n)%nat -> e j = 1 \/ e j = -1) /\
+  (forall j, (j < n)%nat -> sw st' j = sw st (sigma j)) /\
+  (forall i j, (i < m)%nat -> (j < n)%nat -> sU st' i j = e j * sU st i (sigma j)) /\
+  (forall i j, (i < n)%nat -> (j < n)%nat -> sV st' i j = e j * sV st i (sigma j)).
+
+Lemma col_rel_refl m n st : col_rel m n st st (fun j => j) (fun _ => 1).
+Proof.
+  unfold col_rel. repeat split; intros; try tauto; try lra; try assumption.
+Qed.
+
+Lemma col_rel_trans m n st st1 st2 sg e sg' e' :
+  col_rel m n st st1 sg e -> col_rel m n st1 st2 sg' e' ->
+  col_rel m n st st2 (fun j => sg (sg' j)) (fun j => e' j * e (sg' j)).
+Proof.
+  intros (R1 & I1 & E1 & W1 & U1 & V1) (R2 & I2 & E2 & W2 & U2 & V2).
+  unfold col_rel. repeat split.
+  - intros j Hj. apply R1, R2, Hj.
+  - intros a b Ha Hb H. apply I2; try assumption. apply I1; try assumption; apply R2; assumption.
+  - intros j Hj. destruct (E2 j Hj) as [->| ->], (E1 (sg' j) (R2 j Hj)) as [->| ->]; lra.
+  - intros j Hj. rewrite W2, W1; auto.
+  - intros i j Hi Hj. rewrite U2, U1; auto. ring.
+  - intros i j Hi Hj. rewrite V2, V1; auto. ring.
+Qed.
+
+Lemma col_rel_ext m n st st' sg e sg' e' :
+  (forall j, (j < n)%nat -> sg j = sg' j) -> (forall j, (j < n)%nat -> e j = e' j) ->
+  col_rel m n st st' sg e -> col_rel m n st st' sg' e'.
+Proof.
+  intros Hs He (R1 & I1 & E1 & W1 & U1 & V1).
+  unfold col_rel. repeat split.
+  - intros j Hj. rewrite <- Hs by assumption. auto.
+  - intros a b Ha Hb H. rewrite <- !Hs in H by assumption. auto.
+  - intros j Hj. rewrite <- He by assumption. auto.
+  - intros j Hj. rewrite <- Hs by assumption. auto.
+  - intros i j Hi Hj. rewrite <- Hs, <- He by assumption. auto.
+  - intros i j Hi Hj. rewrite <- Hs, <- He by assumption. auto.
+Qed.
+
+(* pure permutations compose *)
+Lemma col_perm_trans m n st st1 st2 sg sg' :
+  col_rel m n st st1 sg (fun _ => 1) -> col_rel m n st1 st2 sg' (fun _ => 1) ->
+  col_rel m n st st2 (fun j => sg (sg' j)) (fun _ => 1).
+Proof.
+  intros H1 H2. eapply col_rel_ext; [| |exact (col_rel_trans _ _ _ _ _ _ _ _ _ H1 H2)].
+  - reflexivity.
+  - intros; cbv beta; lra.
+Qed.
+
+(* ---------- sign normalisation ---------- *)
+Lemma neg_col_spec rows k (A : @Mx R) i j :
+  neg_col ROps rows k A i j = if ((i <? rows)%nat && Nat.eqb j k)%bool then - A i j else A i j.
+Proof.
+  unfold neg_col. revert i j. induction rows as [|r IH]; intros i j; [reflexivity|].
+  cbn [for_up]. rewrite Nat.add_0_l. rewrite upd_eq. cbn [oneg ROps].
+  destruct (Nat.eqb_spec r i) as [->|Hne]; cbn [andb].
+  - rewrite (proj2 (Nat.ltb_lt _ _)) by lia. cbn [andb].
+    destruct (Nat.eqb_spec k j) as [->|Hk].
+    + rewrite Nat.eqb_refl. rewrite IH. rewrite Nat.ltb_irrefl. reflexivity.
+    + rewrite IH. rewrite Nat.ltb_irrefl. destruct (Nat.eqb_spec j k); [congruence|reflexivity].
+  - rewrite IH. destruct (Nat.ltb_spec i r), (Nat.ltb_spec i (S r)); try lia; reflexivity.
+Qed.
+
+Lemma neg_cols_rel m n k (st : @svd_st R) :
+  col_rel m n st (mkSVD (neg_col ROps m k (sU st)) (neg_col ROps n k (sV st)) (sw st) (srv1 st))
+          (fun j => j) (fun j => if Nat.eqb j k then -1 else 1).
+Proof.
+  unfold col_rel. cbn [sU sV sw]. repeat split; try (intros; tauto).
+  - intros j _. destruct (Nat.eqb j k); lra.
+  - intros i j Hi Hj. rewrite neg_col_spec. rewrite (proj2 (Nat.ltb_lt _ _) Hi). cbn [andb].
+    destruct (Nat.eqb j k); ring.
+  - intros i j Hi Hj. rewrite neg_col_spec. rewrite (proj2 (Nat.ltb_lt _ _) Hi). cbn [andb].
+    destruct (Nat.eqb j k); ring.
+Qed.
+
+(* (B1) *)
+Theorem svd_signs_rel : forall m n st, exists e, col_rel m n st (svd_signs ROps m n st) (fun j => j) e.
+Proof.
+  intros m n st. unfold svd_signs.
+  apply (for_up_inv (fun (_ : nat) st1 => exists e, col_rel m n st st1 (fun j => j) e)).
+  - exists (fun _ => 1). apply col_rel_refl.
+  - intros c st1 _ [e He].
+    destruct (m + n <? 2 * _)%nat.
+    + eexists. exact (col_rel_trans _ _ _ _ _ _ _ _ _ He (neg_cols_rel m n (0 + c) st1)).
+    + exists e. exact He.
+Qed.
